@@ -1536,6 +1536,8 @@ class Exec:
         return None
 
     def seq_at(self, seq: SSeq, i):
+        if getattr(seq, "rev", False):
+            i = z3.Length(seq.t) - 1 - i
         if seq.elem == "char":
             return SStr(z3.SubSeq(seq.t, i, z3.IntVal(1)))
         return wrap(seq.t[i], seq.elem)
@@ -1632,9 +1634,14 @@ class Exec:
                 raise RaiseSig(self.make_repo_exc(exc_name, fref.mod))
         self.havoc_modifies(c, fr)
         res = c.returns.fresh(self, f"ret_{tag}") if c.returns is not None else None
+        if c.returns is None and any("result" in cl for cl in c.post):
+            raise Unsupported(f"contract of {c.target} mentions `result` but declares no `returns` type (needed to use it at call sites)")
         fr.locals["result"] = res
         for clause in c.post:
             self.assume(self.spec_bool(clause, fr))
+        # vacuity guard: a callee contract must not contradict the caller's path
+        if self.check_sat([]) == z3.unsat:
+            raise Unsupported(f"assuming the contract of {c.target} makes the path infeasible (inconsistent contract or precondition)")
         return res
 
     def make_repo_exc(self, name, mod):
